@@ -305,7 +305,7 @@ RULES = {
     "R6": [(":&str=", ":&'static str=")],
     # R8: `e.split(c).collect()` -> shim method `e.vsplit_collect(c)` ($C = one literal): vstd's
     #     `Iterator::collect` contract is not applied for core::str::Split, the shim states the result of both calls
-    "R8": [(".split($C).collect()", ".vsplit_collect($C)")],
+    "R8": [(".split($C).collect()", ".vsplit_collect($C)"), ("inner.split($C)", "inner.vsplit_collect($C)")],
     # R10 (signature-only callees): `mut self` is a body-local binding mode, not part of the interface
     "R10": [("(mut self", "(self")],
     # R10b (computed, see apply_rule): a function *body* with a `mut self` receiver (Verus: "mut self" unsupported):
